@@ -320,12 +320,18 @@ fn workload_c(ctx: &Ctx, rep: &mut Report, uni: u64) {
     }
     let kind = if uni % 3 == 0 { KINDS[(rng.usize(5))] } else { "versioned-target" };
     let addr = deploy(&mut u, kind, &owner, &mut rng);
+    // when the probe target's version changes: 0 with the code, 1 in the migration, 2 at both points
+    let mode: u32 = if kind == "versioned-target" { *rng.pick(&[0, 0, 1, 2]) } else { 0 };
+    if mode != 0 {
+        let a = addr.clone();
+        u.setup(move |env| VersionedTargetClient::new(env, &a).set_mode(&mode));
+    }
     let hash = native_hash(&u.env);
     let cur = version_of(&mut u, &addr);
-    let vclass = *rng.pick(&["same", "correct", "wrong", "correct-spelled-differently"]);
+    let vclass = if mode == 2 { *rng.pick(&["same", "correct", "wrong", "correct-spelled-differently", "the-version-between-the-steps", "the-version-between-the-steps"]) } else { *rng.pick(&["same", "correct", "wrong", "correct-spelled-differently"]) };
     let aclass = *rng.pick(&["both", "both", "upgrade-only", "migrate-only", "none", "stranger-both"]);
     let dclass = *rng.pick(&["well-typed", "well-typed", "ill-typed", "wrong-arity", "empty"]);
-    let migrate_sets: Vec<u8> = b"3.1.4".to_vec();
+    let migrate_sets: Vec<u8> = if mode == 2 { b"3.1.5".to_vec() } else { b"3.1.4".to_vec() };
     let requested: Vec<u8> = match vclass {
         "same" => cur.clone(),
         "correct" => if kind == "versioned-target" { migrate_sets.clone() } else { b"9.9.9".to_vec() },
@@ -339,6 +345,7 @@ fn workload_c(ctx: &Ctx, rep: &mut Report, uni: u64) {
                 _ => [base, b".0".to_vec()].concat(),
             }
         }
+        "the-version-between-the-steps" => b"3.1.4".to_vec(),
         _ => b"7.7.7".to_vec(),
     };
     let (up, ad, rq, ms) = (upgrader.clone(), addr.clone(), requested.clone(), migrate_sets.clone());
@@ -372,10 +379,15 @@ fn workload_c(ctx: &Ctx, rep: &mut Report, uni: u64) {
         "none" => Auth::Nobody,
         _ => Auth::AllBy(stranger.clone()),
     };
-    let completes = kind == "versioned-target" && vclass == "correct" && aclass == "both" && dclass == "well-typed";
+    // A valid request for a target whose version changes with its code must complete. Where the
+    // version (also) changes in the migration, the statement allows either outcome: completing at the
+    // requested version, or refusing and leaving everything as it was.
+    let valid = kind == "versioned-target" && vclass == "correct" && aclass == "both" && dclass == "well-typed";
+    let completes: Option<bool> = if valid && mode != 0 { None } else { Some(valid) };
     // a correct request on a production contract cannot complete (its version never changes);
     // everything must then be rolled back
-    rep.step(format!("C: target={} version={} auth={} data={} (owner trees recorded: {}) want_complete={}", kind, vclass, aclass, dclass, owner_trees.len(), completes));
+    rep.step(format!("C: target={} (version changes: {}) version={} auth={} data={} (owner trees recorded: {}) want_complete={:?}", kind, ["with the code", "in the migration", "at both steps"][mode as usize], vclass, aclass, dclass, owner_trees.len(), completes));
+    rep.count(&format!("upgrader:target-version-changes:{}", ["with-the-code", "in-the-migration", "at-both-steps"][mode as usize]));
     let exec0 = executable_of(&u, &addr);
     let o = u.call(auth, &f);
     rep.count(&format!("upgrader:version:{}", vclass));
@@ -389,13 +401,13 @@ fn workload_c(ctx: &Ctx, rep: &mut Report, uni: u64) {
         rep.violation(&format!("failed-upgrader-call-left-trace:{}:{}:{}", vclass, aclass, dclass), l.clone());
         return;
     }
-    if o.ok() != completes {
+    if completes.is_some() && Some(o.ok()) != completes {
         let sig = if o.ok() {
             format!("upgrader-completed:{}:{}:{}", vclass, aclass, dclass)
         } else {
             "upgrader-refused-valid-request".to_string()
         };
-        rep.violation(&sig, format!("Upgrader.upgrade(target={}, version {}, auth {}, data {}) -> ok={}, model {}: {:?}", kind, vclass, aclass, dclass, o.ok(), completes, o.res));
+        rep.violation(&sig, format!("Upgrader.upgrade(target={}, version {}, auth {}, data {}) -> ok={}, model {:?}: {:?}", kind, vclass, aclass, dclass, o.ok(), completes, o.res));
         return;
     }
     let v = version_of(&mut u, &addr);
